@@ -103,6 +103,7 @@ def explore(funcs, index, enums):
 
     nat = c16_printf.str_natives()
     nat.update({
+        "Path::is_dir": lambda m, a: (lambda r: r.variant == "Ok" and r.fields[0].fields[0] == 1)(stat(m, a)),
         "Path::symlink_metadata": lstat, "Path::metadata": stat, "metadata": stat, "fs::metadata": stat, "symlink_metadata": lstat,
         "Metadata::file_type": lambda m, a: Struct("StdFileType", [deref(a[0]).fields[0]]),
         "FileType::is_symlink": std_or_crate("FileType::is_symlink", lambda k: k == LNK),
@@ -168,6 +169,14 @@ def explore(funcs, index, enums):
             se = None
             if l == LNK and not sok:
                 e = m.decide_int(s_err, [ENOENT, ELOOP]); se = EACCES if e is None else e
+            # C13 directly: -type <letter of the record the follow mode selects> is true on this entry
+            follows_ = follows
+            sel_letter = (KINDS[sk] if sok else ("l" if se == ENOENT else None)) if (follows_ and l == LNK) else KINDS[l]
+            type_on_selected = None
+            if sel_letter is not None:
+                tm = m.call("TypeMatcher::new", [RStr(sel_letter)])
+                io = [Struct("MatcherIO", [False, 0, False, Opaque("deps")])]
+                type_on_selected = m.call("<TypeMatcher as Matcher>::matches", [Ptr([tm.fields[0]], 0), Ptr(entry, 0), Ptr(io, 0)])
             agree = {}
             for big, cls in ((False, "TypeMatcher"), (True, "XtypeMatcher")):
                 c = letters[big]
@@ -192,6 +201,8 @@ def explore(funcs, index, enums):
         else:
             want_y = KINDS[l]
         res["checks"] += 1
+        if type_on_selected is False:
+            res["violations"].append({"what": "-type %s is false on an entry whose selected record is %r (%s)" % (sel_letter, sel_letter, world), "world": world, "class": "type-record"})
         if want_y is not None and letters[False] != want_y:
             res["violations"].append({"what": "%%y prints %r, the selected record is %r (%s)" % (letters[False], want_y, world), "world": world, "class": "y"})
         if letters[False] in KINDS and agree.get(False) is not True:
